@@ -2,6 +2,7 @@
 
    op lines (instances and generations are numbers interned by the harness):
      fscreate <i> <g> <0|1>          cache/<i> written, generation g, configure succeeds?
+     cfgbreak <i>                    configure fails from now on for the (unchanged) cache/<i>
      fsdelete <i>
      created  <name> <order> <corder>    name = ready | other | <i>;  order = csv of i:g, corder = csv of i
      modified <name> <order> <corder>
@@ -85,6 +86,10 @@ def stepLine (s : St) (ws : List String) : St × String :=
       let s' := fsCreate s i g ok
       (s', showState s')
     | _, _, _ => (s, "bad-op")
+  | ["cfgbreak", i] =>
+    match i.toNat? with
+    | some i => let s' := cfgBreak s i; (s', showState s')
+    | none => (s, "bad-op")
   | ["fsdelete", i] =>
     match i.toNat? with
     | some i => let s' := fsDelete s i; (s', showState s')
